@@ -1,31 +1,95 @@
-"""Per-property configuration of /verif/check: engines to run, Lean modules and theorems required."""
+"""Per-property configuration of /verif/check: engines to run, Lean theorems required, manifest texts."""
 
 CODEC = {"name": "codec"}
+DECODE = {"name": "decode"}
+REFLECT = {"name": "reflect"}
+
+TECH = "Lean 4 proof + model/implementation correspondence"
 
 PROPS = {
-    "C01": {"engines": [CODEC]},
-    "C02": {"engines": [CODEC]},
-    "C04": {"engines": [CODEC]},
-    "C05": {"engines": [CODEC]},
-    "C15": {"engines": [{"name": "runtime"}]},
-    "C17": {"engines": [{"name": "timepb"}]},
+    "C01": {"engines": [CODEC], "claimed": False},
+    "C02": {
+        "engines": [CODEC],
+        "text": "Lean 4 theorem C02_det_eq_reference: for every well-formed schema and every well-typed value, the model of the generated deterministic Marshal returns exactly the bytes of the model of protobuf-go's reflection-driven encoder (plus key-bytes = protowire tag and the extracted wire-type table). Both models are tied on every run: Impl model vs the real generated code (checked-in and freshly generated corpus types), Spec model vs real dynamicpb.",
+        "note": "trusted: Lean kernel; correspondence sampling (type-directed values, boundary pools); float32 signalling NaNs are outside the reference comparison (protoreflect.Value cannot hold them); emitted Go text is not modelled, only its behaviour",
+        "design": "DESIGN.md §3 C02",
+    },
+    "C03": {
+        "engines": [DECODE],
+        "text": "Lean 4 theorem C03_decode_eq_reference: every stream the strict reference decoder model accepts (WellTyped) decodes in the model of the generated unmarshal closure to exactly the reference value, fresh or with Merge. Both decoder models are tied to the real generated code / real dynamicpb on every run with a record-level stream generator (duplicates, packed/unpacked, partial map entries, unknown records).",
+        "note": "trusted: Lean kernel; correspondence sampling; target message non-nil; proto.Unmarshal wrapper (Reset, initialisation walk) modelled from protobuf-go v1.34.0",
+        "design": "DESIGN.md §3 C03",
+    },
+    "C04": {
+        "engines": [CODEC],
+        "text": "Lean 4 theorems C04_size_eq_len / C04_size_eq_reference / C04_index_reaches_zero / C04_append for every schema, value, option combination and map iteration order, on the model of the size and marshal closures; tied to the real code on every run (Size vs len(Marshal) vs reference size, MarshalAppend with and without spare capacity and a canary).",
+        "note": "partial: slice capacity is Go runtime behaviour, reached only by the correspondence run (prefixes with cap=len, cap>len)",
+        "design": "DESIGN.md §3 C04",
+    },
+    "C05": {
+        "engines": [CODEC],
+        "text": "Lean 4 theorems C05_order_independent (no typing needed), C05_rep_independent, C05_equiv_same_bytes: deterministic bytes are a function of the message value only (any map iteration order, nil-vs-empty, entry storage order), at every depth. Tied by marshalling rebuilt-equal values repeatedly on the real code.",
+        "note": "partial: that the Go runtime really permutes map iteration and that the nested call receives the flag is runtime behaviour, reached by repetition in the correspondence run",
+        "design": "DESIGN.md §3 C05",
+    },
+    "C06": {"engines": [DECODE], "claimed": False},
+    "C14": {"engines": [DECODE], "claimed": False},
+    "C15": {
+        "engines": [{"name": "runtime"}],
+        "text": "Lean 4 theorems over all naturals / all byte strings for Sov, Soz, EncodeVarint and Skip (C15_*), on a hand-written model of runtime.go tied to the code by a differential run of the compiled model against runtime.* and protowire on every check.",
+        "note": "trusted: Lean kernel, correspondence sampling (boundaries, random, 32-bit sweep), math/bits.Len64 spec",
+        "design": "DESIGN.md §3 C15",
+    },
+    "C16": {
+        "engines": [{"name": "anyutil"}],
+        "text": "Lean 4 theorems C16_* on a model of anyutil.MarshalFrom/Unpack with registries and codec as parameters: URL and value of a pack, failed pack leaves dst, unpack never panics for any resolver answers, round trips through type and file registries agree. Tied by scripted-resolver differential runs and real-registry round trips on every check.",
+        "note": "trusted: Lean kernel; protoregistry/dynamicpb/anypb behaviour is assumed as the Lookup parameter (exercised by the correspondence run); codec round trip is C01",
+        "design": "DESIGN.md §3 C16",
+    },
+    "C17": {
+        "engines": [{"name": "timepb"}],
+        "text": "Lean 4 theorems over all valid timestamps/durations (exactness, normalisation, validity, overflow panic, AddStd agreement, total order) on a wrap-around model of cmp.go tied to the code by a differential run on every check.",
+        "note": "trusted: Lean kernel, correspondence sampling, time.Time arithmetic in AddStd (stdlib)",
+        "design": "DESIGN.md §3 C17",
+    },
+    "C18": {
+        "engines": [{"name": "rapid"}],
+        "text": "Lean 4 theorems C18_gen_* about the generator's decision logic over constants regenerated from rapidproto.go on every run (Timestamp/Duration ranges are valid, enum index -> declared number, FieldMask store, nesting limit => termination); everything that involves rapid draws / protoreflect is decided by a direct oracle on generated examples (many types x option sets x seeds).",
+        "note": "partial: rapid is a black box, no draw-level correspondence; types that reach themselves through repeated/map fields are skipped (generation is exponential there, it terminates but not in a test budget)",
+        "design": "DESIGN.md §3 C18",
+        "level": "proof",
+    },
 }
 
 REQUIRED = {
+    "C02": ["C02_keyBytes_eq_tag", "C02_wireType_table", "C02_det_eq_reference"],
+    "C03": ["C03_strict_implies_reference", "C03_decode_eq_reference", "C03_decode_eq_reference_fresh"],
+    "C04": ["C04_keySize_eq", "C04_size_eq_len", "C04_size_eq_reference", "C04_index_reaches_zero", "C04_append"],
+    "C05": ["C05_order_independent", "C05_rep_independent", "C05_equiv_same_bytes"],
     "C15": ["C15_sov_eq_protowire_size", "C15_soz_eq", "C15_encodeVarint_writes_minimal_varint",
             "C15_skip_no_panic", "C15_skip_progress", "C15_skip_len"],
+    "C16": ["C16_pack_url_value", "C16_pack_failure_leaves_dst", "C16_unpack_no_panic", "C16_roundtrip_types",
+            "C16_roundtrip_files", "C16_paths_agree", "C16_bad_url_is_error"],
     "C17": ["C17_add_exact", "C17_add_normalised", "C17_add_valid", "C17_add_eq_addStd",
             "C17_add_overflow_panics", "C17_add_no_wrap", "C17_add_nil", "C17_compare_chronological",
             "C17_compare_total_order"],
+    "C18": ["C18_gen_timestamp_valid", "C18_gen_duration_valid", "C18_gen_enum_declared", "C18_gen_fieldmask_paths",
+            "C18_gen_depth_bounded", "C18_gen_branch_terminates"],
 }
 
-MODULES = {
-    "C15": ["Pulsar.Basic", "Pulsar.Wire", "Pulsar.Runtime", "Pulsar.Proofs.Runtime", "Pulsar.Properties.C15"],
-    "C17": ["Pulsar.Basic", "Pulsar.Timepb", "Pulsar.Proofs.Timepb", "Pulsar.Properties.C17"],
+NOT_YET = {
+    "C01": "check under construction (codec engine runs; round-trip theorem not yet proved)",
+    "C06": "check under construction (decode engine runs; theorems being proved)",
+    "C07": "check under construction",
+    "C08": "check under construction (reflection model and engine being integrated)",
+    "C09": "check under construction (reflection model and engine being integrated)",
+    "C10": "check under construction",
+    "C11": "check under construction",
+    "C12": "check under construction",
+    "C13": "check under construction",
+    "C14": "check under construction (decode engine runs; theorems being proved)",
+    "C19": "check under construction",
 }
-
-CODEC_MODULES = ["Pulsar.Basic", "Pulsar.Wire", "Pulsar.Runtime", "Pulsar.Schema", "Pulsar.Extracted", "Pulsar.Value",
-                 "Pulsar.Scalar", "Pulsar.Encode", "Pulsar.Decode", "Pulsar.Entry"]
 
 
 def required_theorems(pid):
@@ -33,4 +97,4 @@ def required_theorems(pid):
 
 
 def lean_modules(pid):
-    return MODULES.get(pid, CODEC_MODULES + ["Pulsar.Properties." + pid])
+    return ["Pulsar.Properties." + pid]
